@@ -28,7 +28,7 @@ def decided(M, el):
 
 
 def check_transition(conf, hist, op, G, M, out, exp):
-    if op[0] in ('node', 'nodes'):
+    if op[0] in ('node', 'nodes', 'uattr', 'uattrs', 'observe', 'clear', 'clear_edges'):
         return [], {}
     viols = []
     Mp = M.prev
@@ -119,10 +119,11 @@ def run(tier, seed):
     p = base.tier_params(tier)
     spec = Spec()
     sums = {}
-    for fl in base.flavours_for(tier, seed):
+    for fl, reduced in base.flavours_for(tier, seed, (0, 1, 2, 3, 5, 6)):
         for cls in ('DynGraph', 'DynDiGraph'):
             conf = U.conf_make(cls, False, fl, p['w'])
-            total, summary = base.explore_universes(spec, conf, tier)
+            total, summary = (base.explore_universes(spec, conf, tier, which=base.REDUCED['which'], params=base.REDUCED['params'])
+                              if reduced else base.explore_universes(spec, conf, tier))
             rep.cov['per_universe'] += summary
             rep.cov['states'] += total.states
             rep.cov['transitions'] += total.transitions
